@@ -3,11 +3,11 @@ import Nstd.Avl.Model
 /-
   Line protocol of the Avl area (Map / MultiMap, property C01).
   Containers: 0 = Map<Key,int>, 1 = MultiMap<Key,int>, 2 = a second Map, 3 = a second MultiMap.
-    reset | dom <lo> <hi> | obs <0|1|2>
+    reset | dom <lo> <hi> | obs <0|1|2|3>
     <c> ins k v | insat p k v | rmkey k | rmat p | rmfront | rmback | clear
     <c> find k | has k | count k | front | back | nop | wb | assign <src> | insall <src> | copy <src>
   Observation of the container touched, one line per op:
-    <ret> c=<key comparisons of the op> n=<size> [| k:v k:v ...] [| p/c p/c ...]
+    <ret> c=<key comparisons of the op> n=<size> [| k:v k:v ...] [| p/c p/c ...] [# tree-with-fields ord ids free ids]
   the last part lists, for every key of the domain, the position `find` returns (e = end) and
   the number of comparisons it made.  A rejected op prints `bad-op`.
 -/
@@ -33,6 +33,18 @@ def retStr : Ret → String
 def domKeys (lo hi : Int) : List Int :=
   (List.range (hi + 1 - lo).toNat).map (fun (i : Nat) => lo + Int.ofNat i)
 
+/-- the same with the parent link of every item: `(left id/key:height:slope^parent right)` -/
+def renderP (par : Option Nat) : Tree → String
+  | .nil => "."
+  | .node i k _ h s l r =>
+    let ps := match par with | some p => toString p | none => "-"
+    s!"({renderP (some i) l} {i}/{k}:{h}:{s}^{ps} {renderP (some i) r})"
+
+/-- white-box part of an observation (level 3): tree with parent links, prev/next list, free list -/
+def wbAll (s : St) : String :=
+  renderP none s.t ++ " ord" ++ String.join (s.order.map (fun i => s!" {i}")) ++
+    " free" ++ String.join (s.free.map (fun i => s!" {i}"))
+
 def obs (w : World) (s : St) (o : Out) : String :=
   let base := s!"{retStr o.ret} c={o.cmps} n={s.size}"
   let it := if w.lvl ≥ 1 then " |" ++ String.join (s.iter.map (fun e => s!" {e.1}:{e.2}")) else ""
@@ -40,7 +52,8 @@ def obs (w : World) (s : St) (o : Out) : String :=
       " |" ++ String.join ((domKeys w.lo w.hi).map (fun k =>
         " " ++ (match s.findIdx k with | some p => toString p | none => "e") ++ "/" ++ toString (s.findCmps k)))
     else ""
-  base ++ it ++ fs
+  let wb := if w.lvl ≥ 3 then " # " ++ wbAll s else ""
+  base ++ it ++ fs ++ wb
 
 /-- white-box rendering of the tree with the item ids and stored fields:
     `(left id/key:height:slope right)` -/
